@@ -11,6 +11,7 @@ import Gozod.Model.GenSplit
 import Gozod.Model.GenEmit
 import Gozod.Model.GenTyped
 import Gozod.Gen.MethodTable
+import Gozod.Gen.WriterFacts
 import Gozod.Model.GenTerm
 namespace Gozod.Drv.C13
 open Gozod Gozod.Tags Gozod.GenChain
@@ -76,13 +77,21 @@ def parseTyF : Nat → List Char → Option GenEmit.Ty
 
 def parseTy (s : String) : Option GenEmit.Ty := parseTyF (s.length + 1) s.toList
 
+/-- the writer of the tree under check: structure facts regenerated from writer.go on every run -/
+def WF : GenEmit.WriterFacts := Gen.writerFacts
+
 /-- predicted status of the file written for a one-field struct: the expression is well typed against the regenerated
-    method table and every import written is used -/
+    method table and every import written is used; with the reason when it is not (`GenTyped.whyChain`) -/
 def statusOf (rs : List TagParser.Rule) (c : GenEmit.Chain) : String :=
-  match GenTyped.wellTyped Gen.methodTable c with
-  | some true => if GenTyped.importsUsed [rs] [c] then "ok" else "notypecheck"
+  let ti := GenTyped.timeImported WF [rs] [c]
+  match GenTyped.wellTyped Gen.methodTable ti c with
+  | some true => if GenTyped.importsUsed WF [rs] [c] then "ok" else "notypecheck"
   | some false => "notypecheck"
-  | none => "?"
+  | none => if GenTyped.importsUsed WF [rs] [c] then "?" else "notypecheck"
+
+def whyOf (rs : List TagParser.Rule) (c : GenEmit.Chain) : String :=
+  match GenTyped.whyChain Gen.methodTable WF rs c with
+  | .ok => "ok" | .unjudged => "?" | .ill cls => cls
 
 /-- prefix syntax of harness/cmd/c13/term.go: B P<t> S<t> A<t> M<k><v> N<i>. T I -/
 def parseGT : Nat → List Char → Option (GenTerm.GT × List Char)
@@ -131,13 +140,18 @@ def handle : List String → String
       let sp := parts ++ " rules=" ++ (specRefuses s).getD ref
       m ++ drift ++ "\t" ++ sp ++ "\t" ++ GenSplit.parseReason s
     | none => "bad-op"
-  | ["wcompile", _, _, _] => "ok ok"
+  | ["wcompile", _, _, tag] =>
+    -- the file must parse, type-check and its Schema() must not panic; third column: why the two tag parsers read the
+    -- tag differently (`none` inside parseRegion) — a failure outside the region is attributed to that known class
+    match parseRunes tag with
+    | some tag => "ok\tok\t" ++ GenSplit.parseReason tag
+    | none => "bad-op"
   | ["wsame", _, _, _] => "same same"
   | ["wbuild"] => "ok ok"
   | ["wexpr", gotype, _, tag] =>
     match parseRunes tag, parseTy gotype with
     | some tag, some t =>
-      match GenEmit.emitField t [] tag with
+      match GenEmit.emitField WF t [] tag with
       | some e => "expr=" ++ renderRunes e
       | none => "?"
     | _, _ => "?"
@@ -146,8 +160,8 @@ def handle : List String → String
     | some tag, some t =>
       match GenSplit.genParseTag tag with
       | .ok rs =>
-        match GenEmit.emitChain t (GenEmit.asc sn) rs with
-        | some c => "st=" ++ statusOf rs c ++ " expr=" ++ renderRunes c.render
+        match GenEmit.emitChain WF t (GenEmit.asc sn) rs with
+        | some c => "st=" ++ statusOf rs c ++ " expr=" ++ renderRunes c.render ++ "\t" ++ whyOf rs c
         | none => "?"
       | .error _ => "?"
     | _, _ => "?"
@@ -167,6 +181,15 @@ def handle : List String → String
     match parseProg fields env with
     | some p => (if GenTerm.analyzeF p 2000 then "ok" else "crash") ++ " ok"
     | none => "bad-op"
+  | ["mname", names] =>
+    -- model: the keys the analyzer of the tree under check writes (Gen.analyzerMultiName), the file type-checks iff they are
+    -- distinct; spec: one key per name, the name itself (what FromStruct uses), the file type-checks
+    let ns := names.splitOn ","
+    let ks := (GenEmit.fieldKeys Gen.analyzerMultiName (ns.map GenEmit.asc)).map fun k => String.ofList (k.map Char.ofNat)
+    "keys=" ++ ",".intercalate ks ++ " st=" ++ (if ks.eraseDups.length == ks.length then "ok" else "notypecheck") ++ "\t" ++ "keys=" ++ names ++ " st=ok"
+  | ["bfile", kind] =>
+    let k : GenEmit.SrcKind := if kind == "plain" || kind == "second-file" then .plain else if kind == "test-file" then .testFile else .constrained
+    (if GenEmit.packageStillBuilds k then "ok" else "nobuild") ++ "\tok"
   | ["gen"] => "ok ok"
   | ["compile", _, _] => "ok ok"
   | ["sample", _, _] => "same same"
